@@ -1,6 +1,118 @@
-(* C19 — The reader tolerates missing optional content.  (work in progress: table theorem first) *)
-From GV Require Import Prelude.Base Model.H5Read.
+(* C19 — The reader tolerates missing optional content.
+   Model: Model/H5Read.v (HDF5 link graph, single deletions, layout of library-produced files, the loader path with its
+   guards taken from GVgen.Tables_Reader).  Proofs: Proofs/H5ReadProofs.v.  Only statements here.
 
+   Reading guide.  [layout s] is the file the library writes for the entity tree [s] (any depth and width, unique
+   identifiers: [wf s]); [delete_item f x] removes one attribute or one link; [load fuel G f] is the transcription of
+   Workspace.open with the guards [G] of the current source; [abs s] is the intact content decoded from [s] without the
+   reader; [described s x] are the entities item [x] describes (with the descendants hanging on it); [optional s x] is the
+   classification by the format document; [agree_outside b A t t0]: every entity outside [A] is returned by [t] exactly as
+   in [t0] (identifier, kind, parent, attributes, type, property groups, datasets), and the project attributes too if [b]. *)
+From GV Require Import Prelude.Base Model.H5Read Proofs.H5ReadProofs.
+From Coq Require Import String.
+Local Open Scope string_scope.
+Local Open Scope list_scope.
+
+(* ---- the guard table (T_reader): every lookup site the model consumes carries, in the source of this run, the guard the
+   proofs need.  20 consumed rows, enumerated completely and checked by vm_compute. *)
 Theorem C19_reader_guards : guards_okb G = true.
 Proof. vm_compute. reflexivity. Qed.
 Print Assumptions C19_reader_guards.
+
+Theorem C19_reader_table : List.length consumed_sites = 20 /\ forall c, In c consumed_sites -> site_okb c = true.
+Proof. split; [reflexivity|]. apply forallb_forall. vm_compute. reflexivity. Qed.
+Print Assumptions C19_reader_table.
+
+(* hence the extracted guards are the ones the proofs were written against *)
+Theorem C19_guards_as_proved : G = G0.
+Proof. apply guards_ok_eq. exact C19_reader_guards. Qed.
+Print Assumptions C19_guards_as_proved.
+
+(* ---- the intact file reads back as its content *)
+Theorem C19_intact_reads_back : forall s fuel, wf s -> depth (fs_root s) <= fuel ->
+  exists t, load fuel G (layout s) = Ok t /\ t_proj t = fs_proj s /\ t_root t = U (et_uid (fs_root s))
+            /\ forall v, find_rec (U v) (t_ents t) = find_rec (U v) (t_ents (abs s)).
+Proof. intros s fuel Hwf Hf. rewrite C19_guards_as_proved. exact (intact_reads_back s Hwf fuel Hf). Qed.
+Print Assumptions C19_intact_reads_back.
+
+(* ---- the full statements of the property *)
+Definition C19_optional_full : Prop :=
+  forall s x fuel, wf s -> item_in (layout s) x -> optional s x = true -> depth (fs_root s) <= fuel ->
+  exists t, load fuel G (delete_item (layout s) x) = Ok t
+            /\ agree_outside (negb (is_proj_attr x)) (described s x) t (abs s).
+
+Definition C19_mandatory_full : Prop :=
+  forall s x fuel, wf s -> item_in (layout s) x -> optional s x = false -> depth (fs_root s) <= fuel ->
+  (exists e, load fuel G (delete_item (layout s) x) = Err e)
+  \/ (exists t, load fuel G (delete_item (layout s) x) = Ok t /\ tree_eqb t (prune (described s x) (abs s)) = true).
+
+(* PARTIAL (optional items): every optional item except the Root link.  Missing for the full statement: the Root link
+   (refuted below). *)
+Theorem C19_optional_deletion_tolerated_partial :
+  forall s x fuel, wf s -> item_in (layout s) x -> optional s x = true -> is_root_link x = false -> depth (fs_root s) <= fuel ->
+  exists t, load fuel G (delete_item (layout s) x) = Ok t
+            /\ agree_outside (negb (is_proj_attr x)) (described s x) t (abs s).
+Proof.
+  intros s x fuel Hwf _ Hopt Hnr Hf. rewrite C19_guards_as_proved. unfold described. rewrite Hnr.
+  exact (optional_outcome s Hwf x Hnr Hopt fuel Hf).
+Qed.
+Print Assumptions C19_optional_deletion_tolerated_partial.
+
+(* PARTIAL (mandatory items): the reader raises, or returns every entity outside the described ones (and their
+   descendants) unchanged.  Missing for the full statement: that the described entities are left out — the reader often
+   keeps them with class defaults or a fresh identifier (refuted below). *)
+Theorem C19_mandatory_deletion_local_partial :
+  forall s x fuel, wf s -> item_in (layout s) x -> optional s x = false -> depth (fs_root s) <= fuel ->
+  (exists e, load fuel G (delete_item (layout s) x) = Err e /\ e <> OutOfFuel)
+  \/ (exists t, load fuel G (delete_item (layout s) x) = Ok t
+                /\ agree_outside (negb (is_proj_attr x)) (described s x) t (abs s)).
+Proof.
+  intros s x fuel Hwf _ Hopt Hf. rewrite C19_guards_as_proved.
+  assert (Hnr : is_root_link x = false).
+  { destruct x as [a k|a k]; [reflexivity|]. destruct a; [|reflexivity]. destruct k; try reflexivity. discriminate Hopt. }
+  unfold described. rewrite Hnr. exact (deletion_outcome s Hwf x Hnr fuel Hf).
+Qed.
+Print Assumptions C19_mandatory_deletion_local_partial.
+
+(* ---- witnesses *)
+Definition gtype : tspec := {| ts_attrs := [(KID, VStr "{gt}"); (KName, VTok 1)]; ts_cmap := None; ts_vmap := None |}.
+Definition gattrs (u : N) : amap := [(KN "Allow move", VTok 1); (KID, VUid u); (KName, VTok (u + 10))].
+Definition grp (u : N) (kids : list etree) : etree := ET u KGroup (gattrs u) 0 [] None [KData; KGroup; KObject] kids.
+(* root 5 > group 4 > group 0: the child's identifier sorts before its parent's *)
+Definition s_nested : fspec :=
+  {| fs_proj := [(KN "Version", VTok 2); (KN "Contributors", VTok 3)];
+     fs_types := fun k => match k with KGroup => [(0%N, gtype)] | _ => [] end;
+     fs_root := grp 5 [grp 4 [grp 0 []]] |}.
+
+Example C19_nonvacuous :
+  wf s_nested
+  /\ (item_in (layout s_nested) (IAttr [KGroups; KU 4] (KN "Allow move")) /\ optional s_nested (IAttr [KGroups; KU 4] (KN "Allow move")) = true)
+  /\ (item_in (layout s_nested) (ILink [KGroups; KU 5; KGroups] (KU 4)) /\ optional s_nested (ILink [KGroups; KU 5; KGroups] (KU 4)) = false)
+  /\ (item_in (layout s_nested) (ILink [] KRoot) /\ optional s_nested (ILink [] KRoot) = true)
+  /\ depth (fs_root s_nested) <= 5.
+Proof. repeat split; try (vm_compute; reflexivity). cbv. repeat constructor. Qed.
+
+(* REFUTED: without the Root link the reader rebuilds the tree from the flat containers in identifier order; group 0 is
+   met before its parent 4 and is hung on the new root: altered content for an entity the Root link does not describe.
+   (witness replayed on the implementation: corpus/C19/0001-root-link-nested.json, known finding) *)
+Theorem C19_optional_refuted : ~ C19_optional_full.
+Proof.
+  intros H. specialize (H s_nested (ILink [] KRoot) 5).
+  destruct H as [t [E [_ Hag]]]; try (vm_compute; reflexivity).
+  - cbv. repeat constructor.
+  - vm_compute in E. inversion E; subst t. clear E.
+    specialize (Hag 0%N). vm_compute in Hag.
+    assert (Hn : ~ (5%N = 0%N \/ False)) by (intros [X|[]]; discriminate). specialize (Hag Hn). discriminate.
+Qed.
+Print Assumptions C19_optional_refuted.
+
+(* REFUTED: a missing Name (mandatory) neither raises nor leaves the group out: it is returned with the class default. *)
+Theorem C19_mandatory_refuted : ~ C19_mandatory_full.
+Proof.
+  intros H. specialize (H s_nested (IAttr [KGroups; KU 4] KName) 5).
+  destruct H as [[e E]|[t [E Heq]]]; try (vm_compute; reflexivity).
+  - cbv. repeat constructor.
+  - vm_compute in E. discriminate.
+  - vm_compute in E. inversion E; subst t. vm_compute in Heq. discriminate.
+Qed.
+Print Assumptions C19_mandatory_refuted.
